@@ -211,9 +211,44 @@ class Interp:
                 pat = st['pat']
                 while pat['k'] == 'typed':
                     pat = pat['p']
+                ini = st['init']
+                if (st.get('else') and pat['k'] == 'tstruct' and pat['path'] == 'Some' and len(pat['ps']) == 1 and pat['ps'][0]['k'] == 'ident'
+                        and ini is not None and ini['k'] == 'mcall' and ini['m'] == 'first' and not ini['args']):
+                    # let Some(x) = v.first() else { return <bool> };   x is the byte at the start of the view
+                    els = st['else']['stmts']
+                    if not (len(els) == 1 and els[0]['k'] == 'expr' and els[0]['e']['k'] == 'return' and els[0]['e']['e'] is not None and els[0]['e']['e']['k'] == 'bool'):
+                        raise Undecided('let-else whose else block is not `return <bool>`')
+                    off = self.view(ini['recv'], env)
+                    has = prefix_any(off, rx(('cat', [ANY, ('star', ANY)])))
+                    miss = path.intersect(has.complement())
+                    if els[0]['e']['e']['v']:
+                        T = T.union(miss)
+                    else:
+                        F = F.union(miss)
+                    path = path.intersect(has)
+                    env[pat['ps'][0]['name']] = ('byte', off)
+                    continue
+                if pat['k'] == 'ident' and ini is not None and ini['k'] == 'match' and not st.get('else'):
+                    # let x = match v { [b'/', rest @ ..] => rest, _ => v };  every arm yields a view
+                    off = self.view(ini['e'], env)
+                    remaining = DFA.universal()
+                    for arm in ini['arms']:
+                        if arm['guard']:
+                            raise Undecided('match arm with guard')
+                        lang, binds = self.slice_pat(arm['pat'], off)
+                        env_i = dict(env)
+                        for n_, v_ in binds.items():
+                            env_i[n_] = v_
+                        env_i[pat['name']] = ('slice', self.view(arm['body'], env_i))
+                        for n_ in binds:
+                            if n_ != pat['name']:
+                                env_i.pop(n_, None)
+                        t1, f1 = self.eval_block(stmts[i + 1:], env_i, path.intersect(remaining.intersect(lang)))
+                        T = T.union(t1); F = F.union(f1)
+                        remaining = remaining.intersect(lang.complement())
+                    return T, F
                 if pat['k'] != 'ident' or st['init'] is None or st.get('else'):
                     raise Undecided('let pattern')
-                ini = st['init']
                 if ini['k'] == 'mcall' and ini['m'] == 'unwrap_or' and len(ini['args']) == 1 and ini['recv']['k'] == 'mcall' and ini['recv']['m'] == 'strip_prefix' and len(ini['recv']['args']) == 1:
                     sp = ini['recv']
                     a = sp['args'][0]
@@ -287,8 +322,82 @@ class Interp:
         return self.eval_bool(e, env)
 
     # -------------------------------------------------------------- boolean expressions
+    def mentioned(self, e, out):
+        if isinstance(e, dict):
+            if e.get('k') == 'path':
+                out.add(e['v'])
+            if e.get('k') == 'closure':
+                inner = set()
+                self.mentioned(e['body'], inner)
+                def pnames(p, acc):
+                    if isinstance(p, dict):
+                        if p.get('k') == 'ident':
+                            acc.add(p['name'])
+                        for v in p.values():
+                            pnames(v, acc)
+                    elif isinstance(p, list):
+                        for v in p:
+                            pnames(v, acc)
+                ps = set()
+                pnames(e['params'], ps)
+                out |= (inner - ps)
+                return
+            for v in e.values():
+                self.mentioned(v, out)
+        elif isinstance(e, list):
+            for v in e:
+                self.mentioned(v, out)
+
+    def slice_pat(self, p, off):
+        """language (over the whole input) of a pattern matched against the view at offset `off`, and the bindings it makes"""
+        k = p['k']
+        if k == 'wild':
+            return DFA.universal(), {}
+        if k == 'ident' and p.get('sub') is None:
+            return DFA.universal(), {p['name']: ('slice', off)}
+        if k == 'ref':
+            return self.slice_pat(p['p'], off)
+        if k == 'slice':
+            parts = []
+            binds = {}
+            rest_seen = False
+            after = 0
+            for q in p['ps']:
+                if q['k'] == 'rest' or (q['k'] == 'ident' and q.get('sub') is not None and q['sub']['k'] == 'rest'):
+                    if rest_seen:
+                        raise Undecided('two rest patterns')
+                    rest_seen = True
+                    if q['k'] == 'ident':
+                        binds[q['name']] = ('slice', off + len(parts))
+                    continue
+                if rest_seen:
+                    raise Undecided('slice pattern with elements after the rest pattern')
+                if q['k'] == 'ident' and q.get('sub') is None:
+                    binds[q['name']] = ('byte', off + len(parts))
+                    parts.append(('set', ALL))
+                else:
+                    parts.append(('set', frozenset(self.pat_byteset(q))))
+            body = ('cat', parts + ([('star', ANY)] if rest_seen else [])) if (parts or rest_seen) else EPS
+            return prefix_any(off, rx(body)), binds
+        raise Undecided('slice pattern %s' % k)
+
     def eval_bool(self, e, env):
         k = e['k']
+        # an expression over ONE byte variable bound by a pattern (`let Some(first) = s.first()`, `[x, ..]`)
+        names = set()
+        self.mentioned(e, names)
+        bvars = [n for n in names if n in env and env[n][0] == 'byte']
+        others = [n for n in names if n in env and env[n][0] != 'byte']
+        if len(bvars) == 1 and not others and k != 'bool':
+            pos = env[bvars[0]][1]
+            bset = frozenset(self.byteset(e, bvars[0]))
+            t = rx(('cat', [('rep', ANY, pos, pos), ('set', bset), ('star', ANY)]))
+            f = rx(('cat', [('rep', ANY, pos, pos), ('set', ALL - bset), ('star', ANY)]))
+            return t, f
+        if k == 'macro' and e['name'] == 'matches' and 'matches' in e and not e['matches']['guard'] and e['matches']['pat']['k'] == 'slice':
+            off = self.view(e['matches']['e'], env)
+            lang, binds = self.slice_pat(e['matches']['pat'], off)
+            return lang, lang.complement()
         if k == 'bool':
             return (DFA.universal(), DFA.empty()) if e['v'] else (DFA.empty(), DFA.universal())
         if k == 'block':
